@@ -51,6 +51,7 @@ struct Tiff final : public Storage
     struct file file_;
     uint64_t last_offset_, last_ifd_next_offset_;
     size_t frame_count_; // the number of frames written to the current file
+    bool write_failed_;  // a write to the current file failed
 
     // Context for constructing string storage during ifd assembly.
     // This acquires memory. Kept in object context to reuse that memory.
@@ -396,6 +397,7 @@ Tiff::Tiff() noexcept
   , last_offset_(0)
   , last_ifd_next_offset_(0)
   , frame_count_(0)
+  , write_failed_(false)
 {
 }
 
@@ -478,11 +480,17 @@ int
 Tiff::start() noexcept
 {
     frame_count_ = 0;
+    write_failed_ = false;
     CHECK(file_create(&file_, filename_.c_str(), filename_.length()));
     {
         const auto hdr = header();
         write_(0, (void*)&hdr, sizeof(hdr));
         last_offset_ = sizeof(hdr);
+    }
+    if (write_failed_) {
+        LOGE("TIFF: Failed to write the header of \"%s\"", filename_.c_str());
+        file_close(&file_);
+        goto Error;
     }
     LOG("TIFF: Streaming to \"%s\"", filename_.c_str());
     return 1;
@@ -502,9 +510,10 @@ int
 Tiff::stop() noexcept
 {
     if (state == DeviceState_Running) {
+        // leave the running state first: nothing below may re-enter here
+        state = DeviceState_Armed;
         terminate_ifd_list();
         file_close(&file_);
-        state = DeviceState_Armed;
         frame_count_ = 0;
         LOG("TIFF: Writer stop");
     }
@@ -592,6 +601,8 @@ Tiff::append(const struct VideoFrame* frames, size_t nbytes) noexcept
             write_(section_ifd, &ifd, sizeof(ifd));
             write_(section_data, (void*)cur->data, bytes_of_image);
             write_(section_strings, ifd_strings_.data, ifd_strings_.size);
+            if (write_failed_)
+                return 0; // reported by the caller, which stops the writer
 
             // update markers
             last_ifd_next_offset_ = section_ifd + offsetof(ifdN_t, next);
@@ -611,10 +622,15 @@ Tiff::append(const struct VideoFrame* frames, size_t nbytes) noexcept
 void
 Tiff::write_(uint64_t offset, void* buf, size_t nbytes) noexcept
 {
+    if (write_failed_)
+        return;
     CHECK(file_write(&file_, offset, (uint8_t*)buf, (uint8_t*)buf + nbytes));
     return;
 Error:
-    stop();
+    // Only record the failure here. Stopping from inside a write re-entered
+    // stop() -> write_() without bound on a persistent error, and on a
+    // transient one closed the file underneath the append in progress.
+    write_failed_ = true;
 }
 
 enum DeviceState
